@@ -11,8 +11,10 @@
 import MantraDex.Model.System
 import MantraDex.Spec.Ledger
 import MantraDex.Proofs.NumLemmas
+import MantraDex.Proofs.FarmLemmas
 
 set_option linter.unusedSimpArgs false
+set_option linter.unusedVariables false
 
 namespace MantraDex.C07
 open MantraDex
@@ -21,18 +23,18 @@ open MantraDex
 def Sorted (h : List (Nat × Nat)) : Prop := h.Pairwise (fun a b => a.1 < b.1)
 
 theorem histSet_sorted {h : List (Nat × Nat)} (hs : Sorted h) (e w : Nat) : Sorted (histSet h e w) := by
-  sorry
+  exact Farm.histSet_asc hs e w
 
 /-- `LP_WEIGHT_HISTORY.save` semantics: the written epoch reads back, the others are unchanged -/
 theorem histGet_histSet {h : List (Nat × Nat)} (hs : Sorted h) (e w e' : Nat) :
     histGet (histSet h e w) e' = if e' = e then some w else histGet h e' := by
-  sorry
+  exact Farm.histGet_histSet h e w e'
 
 /-- weight in effect after a write at epoch `e`: unchanged before `e`, the new value from `e` up to
     the next snapshot -/
 theorem weightAt_histSet_before {h : List (Nat × Nat)} (hs : Sorted h) (e w e' : Nat) (hlt : e' < e) :
     Spec.weightAt (histSet h e w) e' = Spec.weightAt h e' := by
-  sorry
+  exact Farm.wAtD_histSet_before 0 h e w e' hlt
 
 /-- the user scan (`compute_address_weights`) over [start−1, until], when no snapshot lies before
     start−1, yields for every epoch of the window the ledger's weight in effect -/
@@ -41,7 +43,7 @@ theorem address_scan_eq_weightAt {h : List (Nat × Nat)} {startFrom until_ : Nat
     (hno : ∀ x ∈ h, startFrom - 1 ≤ x.1)
     (hw : computeAddressWeights h startFrom until_ = .ok ws) :
     ∀ e, startFrom - 1 ≤ e → e ≤ until_ → lookupW ws e = some (Spec.weightAt h e) := by
-  sorry
+  exact Farm.address_scan hs hno hw
 
 /-- the total-weight scan (`compute_contract_weights`, after the F-06 fix) yields the ledger's
     weight in effect for every epoch of [start, until] at or after the earliest snapshot, and has no
@@ -50,7 +52,7 @@ theorem contract_scan_eq_weightAt {h : List (Nat × Nat)} {startFrom until_ : Na
     {ws : List (Nat × Nat)} (hs : Sorted h)
     (hw : computeContractWeights h startFrom until_ = .ok ws) :
     ∀ e, startFrom ≤ e → e ≤ until_ → (lookupW ws e).getD 0 = Spec.weightAt h e := by
-  sorry
+  exact Farm.contract_scan hs hw
 
 /-- compaction at claim time (after the F-04 fix) preserves the weight in effect at every epoch
     from the claimed epoch on — the heart of schedule independence -/
@@ -59,7 +61,8 @@ theorem sync_preserves_weightAt {s s' : FmState} {a : Addr} {lp : Denom} {epoch 
     Sorted (s'.hist a lp) ∧ (∀ e, epoch ≤ e → Spec.weightAt (s'.hist a lp) e = Spec.weightAt (s.hist a lp) e) ∧
     (∀ x ∈ s'.hist a lp, epoch ≤ x.1 ∨ (s.hist a lp).all (fun y => epoch < y.1) = true) ∧
     (∀ a' d', (a', d') ≠ (a, lp) → s'.hist a' d' = s.hist a' d') := by
-  sorry
+  obtain ⟨h1, h2, h3, h4, _⟩ := Farm.sync_spec hs h
+  exact ⟨h1, h2, h3, h4⟩
 
 /-- a farm's reward terms add up to the ledger's entitlement for the span, when the scans agree with
     the ledger weights on the span -/
@@ -70,12 +73,15 @@ theorem farm_terms_sum_eq_ledger {f : Farm} {uw cw uh th : List (Nat × Nat)} {s
     (h : farmRewardTerms f uw cw startFrom until_ = .ok terms) :
     (terms.map (·.2)).foldl (· + ·) 0 =
       Spec.spanReward ⟨f.emissionRate, f.startEpoch, f.endEpoch⟩ uh th startFrom until_ := by
-  sorry
+  exact Farm.farm_terms_sum hu hc h
 
 /-- each per-epoch payment is the floor of the exact share: never more, less by under one unit -/
 theorem epoch_share_floor {rate u tot : Nat} (htot : tot ≠ 0) :
     (rate * u / tot) * tot ≤ rate * u ∧ rate * u < (rate * u / tot + 1) * tot := by
-  sorry
+  have hpos : 0 < tot := Nat.pos_of_ne_zero htot
+  refine ⟨Nat.div_mul_le_self _ _, ?_⟩
+  rw [Nat.mul_comm (rate * u / tot + 1) tot]
+  exact Nat.lt_mul_div_succ _ hpos
 
 /-- the Rewards query and the claim go through the same `calculate_rewards`: for a user whose open
     positions are all in one LP token, the coins an accepted claim sends are exactly what the query
@@ -87,6 +93,6 @@ theorem query_eq_claim_single_lp {s s' : FmState} {env : FmEnv} {sender : Addr} 
     (h : fmClaim s env sender [] u = .ok (s', r)) :
     ∃ coins, queryRewards s env sender u = .ok coins ∧
       r.msgs.map (·.msg) = (if coins.isEmpty then [] else [Msg.bankSend sender coins]) := by
-  sorry
+  exact Farm.query_eq_claim hv hone h
 
 end MantraDex.C07
